@@ -56,6 +56,11 @@ type session struct {
 	// in its error state, so the manifest must be replaced by a fresh
 	// snapshot before it is relied upon again; need external synchronization.
 	manifestDirty bool
+	// keptTables are tables of discarded transactions that could not be
+	// removed because the manifest file may still mention them (see
+	// Transaction.discard); they are removed once the manifest has been
+	// replaced; need external synchronization.
+	keptTables []storage.FileDesc
 
 	stCompPtrs  []internalKey // compaction pointers; need external synchronization
 	stVersion   *version      // current version
